@@ -47,6 +47,13 @@ Inductive case :=
      everything that reached it, the part of the failing line included *)
   | CParseW (x : list piece) (cap : N) (read_err : bool) (obs_err : Z) (obs_title : bytes)
             (obs_count obs_written obs_sum : N) (obs_out : list piece)
+  (* a body of [lines] numbered rule lines after one padding line, [size] bytes
+     in all, already in normal form, delivered completely to a forced refresh;
+     observed: updated?, rule count, size of the stored file, its last line.
+     The bytes are not replayed (up to 64 MiB and more): the model side is the
+     closed form of count, size and last line of the normal form of the whole
+     body. *)
+  | CBig (lines size : N) (obs_updated : bool) (obs_count obs_size : N) (obs_last : bytes)
   (* block lists and allow lists (id, enabled, name), probe names, history *)
   | CRefresh (bl al : list (N * bool * bytes)) (probes : list bytes) (steps : list rstep).
 
@@ -110,8 +117,16 @@ Definition init_state (bl al : list (N * bool * bytes)) : rstate :=
   {| r_block := map mk_list bl; r_allow := map mk_list al; r_files := [];
      r_engine := {| e_block := []; e_allow := [] |} |}.
 
+(** The i-th numbered rule line of a big body: [||h<7 digits>.example.org^]. *)
+Definition digit (i k : N) : N := 48 + (i / k) mod 10.
+Definition numbered (i : N) : bytes :=
+  [124; 124; 104; digit i 1000000; digit i 100000; digit i 10000; digit i 1000; digit i 100; digit i 10; digit i 1;
+   46; 101; 120; 97; 109; 112; 108; 101; 46; 111; 114; 103; 94].
+
 Definition case_ok (c : case) : bool :=
   match c with
+  | CBig lines size upd cnt sz last =>
+      upd && (cnt =? lines + 1) && (sz =? size) && eqb_bytes last (numbered (lines - 1))
   | CRefresh bl al probes steps => run_steps probes steps (init_state bl al)
   | CParse x re e ti cnt wr sum out =>
       let '(st, err) := parse crc32_update (expand x) re in
@@ -138,6 +153,7 @@ Fixpoint explain_steps (probes : list bytes) (ss : list rstep) (st : rstate) :=
 
 Definition explain (c : case) :=
   match c with
+  | CBig lines size _ _ _ _ => inl (0%Z, numbered (lines - 1), lines + 1, size, 0, 0)
   | CRefresh bl al probes steps => inr (explain_steps probes steps (init_state bl al))
   | CParse x re _ _ _ _ _ _ =>
       let '(st, err) := parse crc32_update (expand x) re in
